@@ -198,3 +198,35 @@ Fixpoint spec_read (tbl : deftable) (cfg : rcfg) (st : rstate) (fs : list frame)
     | o => Some (o, r)
     end
   end.
+
+(* successive calls on a queue of whole frames; None: some call ran off the end of the queue *)
+Fixpoint spec_many (tbl : deftable) (calls : list call) (fs : list frame)
+  : option (list (outcome * bool) * list frame) :=
+  match calls with
+  | [] => Some ([], fs)
+  | c :: r =>
+    match spec_read tbl (c_cfg c) (mkR true (c_sub_all c) (c_subscribed c)) fs with
+    | None => None
+    | Some (o, fs') =>
+      match spec_many tbl r fs' with
+      | None => None
+      | Some (os, fs'') => Some ((o, true) :: os, fs'')
+      end
+    end
+  end.
+
+(* header bytes -> can the frame be decoded under the local definitions? *)
+Definition decodable (tbl : deftable) (sync : bool) (h : list Z) : bool :=
+  match classify tbl sync (mkFrame h []) with OMsg _ _ => true | _ => false end.
+
+(* building concrete headers (examples, witnesses) *)
+Definition le_bytes (v : Z) : list Z :=
+  let u := v mod 4294967296 in [u mod 256; (u / 256) mod 256; (u / 65536) mod 256; (u / 16777216) mod 256].
+Fixpoint set_at (l : list Z) (i : nat) (v : list Z) : list Z :=
+  match v with [] => l | b :: r =>
+    set_at (firstn i l ++ b :: skipn (S i) l) (S i) r end.
+Definition hdr_of (t n ver : Z) : list Z :=
+  let h := repeat 0 (Z.to_nat HEADER_SIZE) in
+  let h := set_at h (Z.to_nat OFF_MSG_TYPE) (le_bytes t) in
+  let h := set_at h (Z.to_nat OFF_NUM_DATA_BYTES) (le_bytes n) in
+  set_at h (Z.to_nat OFF_VERSION) (le_bytes ver).
